@@ -690,6 +690,20 @@ Proof.
   destruct (mp y) as [| | |[]| | |[]|]; discriminate.
 Qed.
 
+Lemma mcode_ne7 s h : N.eqb 7 (mcode s h) = false.
+Proof.
+  unfold mcode. destruct h as [m|t first|]; [| |reflexivity].
+  - destruct (nth_error (macts s) m) as [x|]; [|reflexivity]. destruct (mp x); reflexivity.
+  - destruct first; [|reflexivity]. destruct (nth_error (macts s) t) as [x|]; [|reflexivity].
+    destruct (mp x) as [| | |[]| | |[]|]; reflexivity.
+Qed.
+
+Lemma mno7 h e h' o : mhstep h e = Some (h', o) -> existsb (N.eqb 7%N) o = false.
+Proof.
+  intros Hs. destruct (mhstep_cases _ _ _ _ Hs) as [_ ->]. unfold mobs.
+  induction (mhmap h') as [|x l IH]; [reflexivity|]. cbn [map existsb]. now rewrite mcode_ne7, IH.
+Qed.
+
 (* ------------------------------------------------------------------ *)
 (* THE THEOREMS, about exactly what run_check_mutex uses *)
 Definition mu_step := lstep mhstep (fun h => length (mhmap h)).
@@ -698,7 +712,7 @@ Definition mu_mon := lmon mon_mutex (@length mact).
 Theorem mutex_model_satisfies_monitors evs :
   monitor mu_mon 0 ([], lockers0) [] evs (run_obs mu_step (mhinit, lockers0) evs) = [].
 Proof.
-  apply (layer_clean mhst (list mact) mhstep mon_mutex (fun h => length (mhmap h)) (@length mact) MR MR_len mmon_step mpanic_obs mrel_obs).
+  apply (layer_clean mhst (list mact) mhstep mon_mutex (fun h => length (mhmap h)) (@length mact) MR MR_len mmon_step mpanic_obs mrel_obs mno7).
   split; [apply MR_init | reflexivity].
 Qed.
 
